@@ -254,7 +254,9 @@ def run_spline(t):
     tu = build.spline_tu(o, d)
     out = []
     for (N0, N1, evals) in ((2, 2, (0, 1)), (2, 3, (0,)), (3, 1, (2,)), (1, 1, (0, 1, 2)), (2, 2, ())):
-        for mode in ('dur', 'tp'):
+        for mode in ('dur', 'tp', 'swap'):
+            if mode == 'swap' and not (N0 == N1 and N0 >= 2):
+                continue
             rng = C.rng_for(t['seed'], 'C11s', o, N0, N1, mode)
             s = D.Script()
             s.var('tl', 0.29)
@@ -269,7 +271,14 @@ def run_spline(t):
             s.add('sp.traj OLD S ref')
             for how in ('copy', 'ppoly', 'ppolycopy'):
                 s.add('sp.traj OLD%s S %s' % (how, how))
-            if mode == 'dur':
+            if mode == 'swap':
+                # same start time, same durations in reversed order: first and last knot unchanged (bit-identical with the
+                # dyadic shadows), interior knots moved
+                b.h = list(reversed(a.h))
+                b.t0 = a.t0
+                for nm in a.h + [a.t0]:
+                    s.shadows[nm] = C.dyadic(rng, 0.75, 1.75)
+            if mode in ('dur', 'swap'):
                 b.update(s, 'S')
                 b.new(s, 'F')
             else:
@@ -280,6 +289,11 @@ def run_spline(t):
                 s.add('sp.update S tp', N1 + 1, *q, N1 + 1, *b.flatP(), b.bcname)
                 s.add('sp.new F tp', N1 + 1, *q, N1 + 1, *b.flatP(), b.bcname)
             a.new(s, 'FA')
+            s.add('sp.traj NT S ref')
+            s.add('sp.traj FT F ref')
+            s.add('pp.meta NT MN')
+            s.add('pp.meta FT MF')
+            s.add('pp.meta HELD MH')
             # an evaluated spline re-assigned from a temporary built from other data
             c_ = C.Problem(s, 'c', o, d, N1, rng)
             c_.new(s, 'MVT')
@@ -315,6 +329,10 @@ def run_spline(t):
                         for dd in range(d):
                             sc.uf_eq('after update: piece %d order %d [%d] == fresh spline' % (i, k, dd), 'n_%d_%d.%d' % (i, k, dd), 'f_%d_%d.%d' % (i, k, dd))
                             sc.uf_eq('a reference to getTrajectory() obtained before the update reflects the update: piece %d order %d [%d]' % (i, k, dd), 'held_%d_%d.%d' % (i, k, dd), 'f_%d_%d.%d' % (i, k, dd))
+                for key in ['bp.%d' % i for i in range(N1 + 1)] + ['start', 'end', 'dur']:
+                    sc.uf_eq('after update: trajectory %s == fresh spline' % key, 'MN.' + key, 'MF.' + key)
+                    sc.uf_eq('held trajectory reference after update: %s == fresh spline' % key, 'MH.' + key, 'MF.' + key)
+                sc.int_eq('after update: trajectory breakpoint count', 'MN.nbp', N1 + 1)
                 for k in (0, 1, 2):
                     for i in range(N1):
                         for dd in range(d):
